@@ -8,9 +8,9 @@ C01 at block level: `Blk.decompressBlock` (the faithful mirror of `decompress_bl
   * `decodeSequences_refines`   sequences section (tables: `Proofs/BlkSeqTables`, bitstream: `Proofs/BlkSeqStream`)
   * `decodeLiterals_refines_raw_rle`  Raw and RLE literals (header: `Proofs/BlkLitRefines`)
   * `Proofs.DictCopy.executeSequences_refines`  sequence execution on the decode buffer
-The literals stage enters the composition as the predicate `LitStage`; it is proved for Raw and RLE
-sections, so the block theorem is unconditional for those and conditional on the Huffman stream
-refinement (`decodeLiterals_refines_full`, stated, open) for Compressed/Treeless sections.
+The literals stage enters the composition as the predicate `LitStage`; it is proved here for Raw and
+RLE sections and in `Proofs/BlkLitFull` for Compressed/Treeless sections (`decodeLiterals_refines_full_proved`,
+`decompressBlock_refines_full_proved`).
 -/
 namespace Zstd.Proofs.Blk
 open Zstd Zstd.Model Zstd.Model.Blk Zstd.Proofs.BitIO Zstd.Proofs.DictCopy
@@ -195,8 +195,8 @@ theorem decodeLiterals_refines_raw_rle {bytes : List Nat} (hb : Bytes bytes) {pr
           rw [hbody]
           simp only [Huf.decodeLiterals, this, hsreg, List.take_succ_cons, List.take_zero, List.nil_append]
 
-/-- the full literals refinement (all four section types); proved for Raw/RLE above, open for
-Compressed/Treeless (needs the Huffman stream refinement on top of C13's `huf_table_eq_canonical`) -/
+/-- the full literals refinement (all four section types); proved for Raw/RLE above and for
+Compressed/Treeless in `Proofs/BlkLitFull` (`decodeLiterals_refines_full_proved`) -/
 def decodeLiterals_refines_full : Prop :=
   ∀ (bytes : List Nat) (prev huf' : Option Spec.Huffman.Table) (lits : List Nat) (used : Nat) (t : Huf.DecTable),
     Bytes bytes → HufCoupled prev t → Spec.decodeLiterals bytes prev = some (lits, used, huf') →
